@@ -147,8 +147,16 @@ def crc(ctx):
             rv = s['rv']
             shape = False
             byte_ok = False
+            top = None
             if rv['k'] == 'bin' and rv['op'] == 'BitXor':
-                l, r = expr_tree(w, rv['l'], 16), expr_tree(w, rv['r'], 16)
+                top = (expr_tree(w, rv['l'], 16), expr_tree(w, rv['r'], 16))
+            elif rv['k'] == 'use':
+                # the step computed by a (spliced) helper and stored: `self.result = feed_byte(self.result, b)`
+                t_ = expr_tree(w, rv['op'], 20)
+                if t_ and t_[0] == 'BitXor' and len(t_) == 3:
+                    top = (t_[1], t_[2])
+            if top is not None:
+                l, r = top
                 if l[0] == 'index':
                     l, r = r, l
                 res = ('field', 'result', ('param', 1))
